@@ -132,7 +132,7 @@ var (
 	// characters that need no escape in JSON but are unusual: DEL, a non-printable supplementary-plane rune, U+2028,
 	// HTML-significant characters, emoji, a 2-byte rune (profiles >= 4)
 	strsAlt = []string{"a\u007fb", "\U000E0001", "é😀\u2028", "<a&b>'"}
-	mapKs   = []string{"k", "中", "é\u007f\U000E0001"}
+	mapKs   = []string{"k", "", "é\u007f\U000E0001"}
 	mapKi   = []int64{1, -2, 30}
 	f64s    = []float64{0, 1.5, -0.25, 1e6}
 	f64alt  = []float64{123456.789, -1e-3, 0.1, 65536}
